@@ -2205,12 +2205,15 @@ impl Family {
                     if children > 0 {
                         out.push(vec![Op::NIns { index: 0, count: 1 }]);
                     }
-                    if children > 1 {
+                    if children > 1 && !self.undo {
                         out.push(vec![Op::NIns { index: 1, count: 1 }]);
                     }
                 }
                 for index in 0..children as u32 {
-                    out.push(vec![Op::NDel { index }]);
+                    // with undo / redo in the alphabet: the first and the last child only
+                    if !self.undo || index == 0 || index + 1 == children as u32 {
+                        out.push(vec![Op::NDel { index }]);
+                    }
                 }
                 out.push(vec![Op::ADel { index: at as u32 }]);
             }
@@ -2449,26 +2452,21 @@ fn families(universe: u32, target: &str) -> Vec<Family> {
         out.push(f);
     }
     // nested array with undo / redo on replica 1
-    for ids in [[2u64, 1], [1, 2], [ID_32_7, 7], [7, ID_32_7]] {
-        for first in [2u32, 1] {
-            let mut f = Family::base(&format!("nested_undo_{}_{}_{}", id_name(ids[0]), id_name(ids[1]), first), "conv_nested", &ids);
-            f.nested = true;
-            f.undo = true;
-            f.all_or_nothing = true;
-            f.depth = d(0) + 1;
-            f.max_txns = 4;
-            f.max_undo = 3;
-            f.max_len = 3;
-            f.enc = Enc::ByReceiver;
-            f.prefix = vec![Step::Txn {
-                r: 0,
-                ops: vec![Op::NNew { index: 0, count: first }],
-            }];
-            if first == 1 && ids[0] > (1 << 32) {
-                continue;
-            }
-            out.push(f);
-        }
+    for (ids, first) in [([2u64, 1], 2u32), ([1, 2], 2), ([ID_32_7, 7], 2), ([2, 1], 1)] {
+        let mut f = Family::base(&format!("nested_undo_{}_{}_{}", id_name(ids[0]), id_name(ids[1]), first), "conv_nested", &ids);
+        f.nested = true;
+        f.undo = true;
+        f.all_or_nothing = true;
+        f.depth = d(0) + 1;
+        f.max_txns = 3;
+        f.max_undo = 2;
+        f.max_len = 3;
+        f.enc = Enc::ByReceiver;
+        f.prefix = vec![Step::Txn {
+            r: 0,
+            ops: vec![Op::NNew { index: 0, count: first }],
+        }];
+        out.push(f);
     }
     {
         // nested array without undo: any delivery order of single updates
